@@ -47,6 +47,9 @@ def self_reads(repo: Repo, ci: ClassInfo, fn: ast.AST, depth: int = 1, selfname:
                     attr_bases.add(id(x))
     for n in walk_local(fn):
         # super().m(...)  -> the overridden method's reads
+        if isinstance(n, ast.Attribute) and isinstance(n.value, ast.Call) \
+                and isinstance(n.value.func, ast.Name) and n.value.func.id == 'super':
+            n = ast.Call(func=n, args=[], keywords=[])
         if isinstance(n, ast.Call) and isinstance(n.func, ast.Attribute) and isinstance(n.func.value, ast.Call) \
                 and isinstance(n.func.value.func, ast.Name) and n.func.value.func.id == 'super':
             owner = None
@@ -115,6 +118,7 @@ def init_param_to_field(repo: Repo, ci: ClassInfo) -> Dict[str, Set[str]]:
     if fn.args.kwarg is not None:
         params.append(fn.args.kwarg.arg)
     # local -> params it depends on (iterate twice for chains)
+    selfname_ = fn.args.args[0].arg if fn.args.args else 'self'
     dep: Dict[str, Set[str]] = {p: {p} for p in params}
     for _ in range(3):
         for n in walk_local(fn, include_nested_funcs=False):
@@ -141,6 +145,13 @@ def init_param_to_field(repo: Repo, ci: ClassInfo) -> Dict[str, Set[str]]:
             elif isinstance(n, ast.withitem) and n.optional_vars is not None:
                 val = n.context_expr
                 tgts = [n.optional_vars]
+            elif isinstance(n, ast.Expr) and isinstance(n.value, ast.Call) and isinstance(n.value.func, ast.Attribute) \
+                    and isinstance(n.value.func.value, ast.Name) and (n.value.args or n.value.keywords):
+                # local mutated through a method call:  x.add(a) / x.update(b) / g.add_edges_from(c)
+                val = ast.Tuple(elts=list(n.value.args) + [k.value for k in n.value.keywords], ctx=ast.Load())
+                tgts = [n.value.func.value]
+            elif isinstance(n, ast.Assign) and False:
+                continue
             else:
                 continue
             used = set()
@@ -148,7 +159,7 @@ def init_param_to_field(repo: Repo, ci: ClassInfo) -> Dict[str, Set[str]]:
                 used |= dep.get(nm, set())
             for t in tgts:
                 for tn in ast.walk(t):
-                    if isinstance(tn, ast.Name):
+                    if isinstance(tn, ast.Name) and tn.id != selfname_:
                         dep.setdefault(tn.id, set()).update(used)
     out: Dict[str, Set[str]] = {p: set() for p in params}
     selfname = fn.args.args[0].arg
